@@ -334,6 +334,34 @@ func (fr *Frame) useContract(fn *ssa.Function, ct *Contract, args []Val, pos tok
 	if gen == nil {
 		unsupported("generated contract function missing for %s", ct.Name)
 	}
+	// a pure contract whose clauses mention the function itself (algebraic laws such as f(a,b) == f(b,a)):
+	// the nested application is the bare uninterpreted value, its own laws are not unfolded again
+	if c.inUse == nil {
+		c.inUse = map[*ssa.Function]int{}
+	}
+	if c.inUse[fn] > 0 && ct.Flags["pure"] != "" && ct.Flags["readsheap"] == "" && len(ct.Modifies) == 0 {
+		var ts []*Term
+		ok := true
+		for _, a := range args {
+			if t := a.term(); t != nil {
+				ts = append(ts, t)
+			} else {
+				ok = false
+			}
+		}
+		if ok {
+			var res []Val
+			for i := 0; i < fn.Signature.Results().Len(); i++ {
+				rt := fn.Signature.Results().At(i).Type()
+				v := Val{T: UFApp(fmt.Sprintf("fn.%s.%d", sanitize(fullName(fn)), i), sortOf(rt), ts...)}
+				c.typeAssume(v.T, rt, fr.curReach)
+				res = append(res, v)
+			}
+			return tupleOrSingle(res, resType)
+		}
+	}
+	c.inUse[fn]++
+	defer func() { c.inUse[fn]-- }()
 	mk := &markerInfo{mode: "use", target: fn, contract: ct, callerFrame: fr, callPos: pos}
 	// ghost parameters of the callee contract are existential at call sites: use fresh values
 	full := append([]Val{}, args...)
